@@ -541,6 +541,10 @@ def gen_rules():
     if not m or "STANDARD_LIBRARY_TYPES_LOWER_CASE.contains(&ty.name.lower_case().to_string())" not in std:
         raise Refuse("stdlib.rs: the unsupported type set no longer has the modelled shape")
     types = re.findall(r'"([^"]+)"', "\n".join(code_lines(m.group(1))))
+    m2 = re.search(r"static ELEMENTARY_TYPES_LOWER_CASE: Set<&'static str> = phf_set! \{(.*?)\};", std, re.S)
+    if not m2 or "ELEMENTARY_TYPES_LOWER_CASE.contains(&ty.name.lower_case().to_string())" not in std:
+        raise Refuse("stdlib.rs: the elementary type set no longer has the modelled shape")
+    elem = re.findall(r'"([^"]+)"', "\n".join(code_lines(m2.group(1))))
     o = ["(* GENERATED by tools/translate.py from compiler/problems/resources/problem-codes.csv, the rule modules named in",
          "   compiler/analyzer/src/stages.rs and compiler/analyzer/src/stdlib.rs -- do not edit *)",
          "From Coq Require Import List String NArith.", "Import ListNotations.", "Local Open Scope string_scope.", ""]
@@ -555,6 +559,25 @@ def gen_rules():
     o.append("")
     o.append("(* function block types of the standard library that are named but not implemented (lower case) *)")
     o.append("Definition unsupported_types : list (list N) := [" + "; ".join(coq_text(t) for t in types) + "].")
+    o.append("")
+    o.append("(* the elementary type names (lower case) *)")
+    o.append("Definition elementary_types : list (list N) := [" + "; ".join(coq_text(t) for t in elem) + "].")
+    o.append("")
+    # the transformations report problems too
+    xf = []
+    for x in stages["xforms"]:
+        src = "\n".join(code_lines(read("compiler/analyzer/src/%s.rs" % x).split("#[cfg(test)]")[0]))
+        names = []
+        for n in re.findall(r"Problem::(\w+)", src):
+            if n not in codes:
+                raise Refuse("%s.rs reports Problem::%s which has no code" % (x, n))
+            if n not in names:
+                names.append(n)
+        xf.append((x, names, bool(re.search(r"Diagnostic::todo", src))))
+    o.append("Definition xform_problems : list (string * (list N * bool)) := [")
+    o.append(";\n".join("  (%s, ([%s], %s))" % (coq_string(r), "; ".join("P_" + n for n in names), "true" if todo else "false")
+                        for r, names, todo in xf))
+    o.append("].")
     o.append("")
     write_if_changed("GenRules.v", "\n".join(o) + "\n")
     return {"codes": len(codes), "rules": {r: names for r, names, _ in per_rule}, "unsupported": len(types)}
